@@ -79,6 +79,7 @@ Next ==
            Step("CloseBorrow", [u |-> u, b |-> b.id], CloseBorrow(Cfg, st, u, b.id, CloseEnv0(st, b.id)))
      \/ \E b \in Range(st.borrows) : \E u \in Actors(BOwner(b)) :
            Step("RepayWithdraw", [u |-> u, b |-> b.id], RepayWithdraw(Cfg, st, u, b.id, CloseEnv0(st, b.id)))
+     \/ \E u \in Users : Step("CalcInterest", [u |-> u], CalcInterest(Cfg, st, u, NoEnv))
      \/ \E b \in Range(st.borrows), d \in AccrueAmts :
            b.iT < 2 /\ Step("Accrue", [b |-> b.id, d |-> d], AccrueEnv(st, b.id, d))
      \/ \E o \in PriceOpts :
